@@ -230,6 +230,12 @@ pub fn set(m: &Set, env: Option<&Environment>, p: &Interpreter) -> MResult<Value
   let mut elements = Vec::new();
   for el in &m.elements {
     let result = expression(el, env, p)?;
+    // an element written as a variable evaluates to a MutableReference: store its value,
+    // otherwise the entry never compares equal to (nor has the kind of) a plain value
+    let result = match result {
+      Value::MutableReference(reference) => reference.borrow().clone(),
+      value => value,
+    };
     elements.push(result.clone());
   }
   let element_kind = if elements.len() > 0 {
